@@ -57,7 +57,10 @@ class Tokenizer:
         if self._index in self._raw_from or self._stack:
             return False
         tail = self._tokens[self._index :]
+        if any(tok.type == Token.MACRO_PARAM for tok in tail):
+            return False  # raw text of another macro is among them: its delimiters are gone, it cannot be read again
         del self._tokens[self._index :]
+        self._raw_from = {mark for mark in self._raw_from if mark < self._index}  # (the later indices are void)
         self._tokengen = itertools.chain(tail, self._tokengen)
         return True
 
